@@ -29,8 +29,19 @@ STAGES = {
             ('rerender-and-delete', 'MimeBuild', cfg(MAXP='3', MAXE='1', MAXA='1', ENCS='{"qp", "b64"}', DELS='{0, 1, 2}', ROTS='{3}',
                                                     CCS='<<"size6000", "crlf", "size900">>', SRCS='<<"seeker", "reader", "chunk57">>',
                                                     OPSEQS='{<<"WriteTo", "WriteTo">>, <<"FailSink", "WriteTo">>, <<"FailSinkMid", "WriteTo">>, <<"FailSinkLate", "WriteTo">>, <<"Reader", "WriteTo">>}')),
+            # the same configuration through the setter methods of Msg and Part; content out of text/html templates; files of an embed.FS
+            ('setters-templates-embedfs', 'MimeBuild', cfg(MAXP='2', MAXE='1', MAXA='2', ENCS='{"qp", "b64", "8bit"}', PENCS='{"", "b64"}', STYLES='{"", "set"}',
+                                                         BOUNDARIES='{"", "fixed"}', PDESCS='{"", "plain"}', ROTS='{0, 1, 2}',
+                                                         CCS='<<"crlf", "utf8", "dots", "oneline", "len76", "trailws">>',
+                                                         PRODS='<<"tpl", "string", "tpl", "writer">>', SRCS='<<"htpl", "embedfs", "tpl", "seeker">>',
+                                                         OPSEQS='{<<"WriteTo", "WriteTo">>}')),
         ],
         'thorough': [
+            ('setters-templates-embedfs', 'MimeBuild', cfg(MAXP='3', MAXE='2', MAXA='2', ENCS='{"qp", "b64", "8bit", "7bit"}', PENCS='{"", "b64", "qp"}', STYLES='{"", "set"}',
+                                                         BOUNDARIES='{"", "fixed"}', PDESCS='{"", "plain"}', ROTS='0..5',
+                                                         CCS='<<"crlf", "utf8", "dots", "oneline", "len76", "trailws", "eq", "from">>',
+                                                         PRODS='<<"tpl", "string", "tpl", "writer">>', SRCS='<<"htpl", "embedfs", "tpl", "seeker">>',
+                                                         OPSEQS='{<<"WriteTo", "WriteTo">>}')),
             ('shapes-3x2x2', 'MimeBuild', cfg(MAXP='3', MAXE='2', MAXA='2', ROTS='0..16', BOUNDARIES='{"", "fixed"}')),
             ('encodings', 'MimeBuild', cfg(MAXP='2', MAXE='2', MAXA='2', ENCS='{"qp", "b64", "8bit", "7bit"}', PENCS='{"", "qp", "b64", "8bit", "7bit"}',
                                           FENCS='{"", "b64", "8bit", "qp", "7bit"}', ROTS='{1, 4, 9, 13}')),
